@@ -54,6 +54,7 @@ class Interp:
         self.cmd = {}  # actor -> future (engine C)
         self.actor_state = {}
         self.cache_calls = []
+        self.caught = {}
 
     # -- objects --------------------------------------------------------------------------
     def make_objects(self):
@@ -252,6 +253,19 @@ class Interp:
             raise e
         if k == "try":
             return await self.op_try(t, op, opid)
+        if k == "raise_group":
+            # ["raise_group", [leaf...]] with leaf in {"caught", "native", "boom:NAME"}
+            leaves = []
+            for spec in op[1]:
+                if spec == "caught":
+                    if self.caught.get(t) is not None:
+                        leaves.append(self.caught[t])
+                elif spec == "native":
+                    leaves.append(asyncio.CancelledError())
+                else:
+                    leaves.append(Boom(spec.split(":", 1)[1]))
+            w.ev("x", t, opid, "raise_group", [op[1]], ["ok", None])
+            raise BaseExceptionGroup("generated", leaves)
         if k == "join":
             h = objs[op[1]]
             await self._blocking(t, opid, "join", [op[1]], h.wait())
@@ -451,6 +465,7 @@ class Interp:
             if on is None:
                 raise
             w.ev("x", t, opid, "caught", [], classify(e))
+            self.caught[t] = e
             await self.run_ops(t, on, opid + "c")
             if o.get("reraise", True):
                 raise
@@ -460,6 +475,12 @@ class Interp:
                 raise
             w.ev("x", t, opid, "caught", [], classify(e))
             await self.run_ops(t, on, opid + "x")
+        except BaseExceptionGroup as e:
+            on = o.get("group")
+            if on is None:
+                raise
+            w.ev("x", t, opid, "caught", [], classify(e))
+            await self.run_ops(t, on, opid + "g")
         except TimeoutError as e:
             on = o.get("timeout")
             if on is None:
